@@ -10,11 +10,11 @@ site of the undisciplined operation that caused it.
 import sys
 from contextlib import contextmanager
 
-PRIMS = {"add_cell", "remove_cell", "get_near_cells", "assign_cells", "__setattr__", "remove_atom", "create_atom", "rotate_tetrahedral", "set_dihedral_angle", "add_atom", "wrapper", "_w_setattr", "_w_remove_atom", "_w_add", "_w_remove", "_w_query", "_w_assign"}
+PRIMS = {"add_cell", "remove_cell", "get_near_cells", "assign_cells", "__setattr__", "remove_atom", "create_atom", "rotate_tetrahedral", "set_dihedral_angle", "add_atom", "wrapper", "_w_setattr", "_w_remove_atom", "_w_add", "_w_remove", "_w_query", "_w_assign", "_w_atom_init", "ev"}
 
 
-def call_site(skip_prims=True):
-    f = sys._getframe(2)
+def call_site(skip_prims=True, depth=2):
+    f = sys._getframe(depth)
     while f is not None:
         code = f.f_code
         fn = code.co_filename
@@ -55,6 +55,17 @@ class CellMonitor:
         self.stale_moved = {}  # id(atom) -> (atom, site)
         self.latent = []
         self._latent_seen = set()
+        # call-site event log for the protocol-shape check (c14.py): (letter, atom id, site)
+        #   A add   B add of a registered atom   R remove   W write (unregistered atom)
+        #   X write on a REGISTERED atom   Q query   N new Atom object   D remove_atom (unregistered)
+        #   G remove_atom of a REGISTERED atom   S assign_cells
+        self.events = []
+        self.events_limit = 400000
+        self.record_events = True
+
+    def ev(self, letter, atom, site=None):
+        if self.record_events and len(self.events) < self.events_limit:
+            self.events.append((letter, self.aid(atom) if atom is not None else -1, site if site is not None else call_site(skip_prims=True, depth=3)))
 
     def aid(self, atom):
         i = self.atom_ids.get(id(atom))
@@ -84,11 +95,19 @@ def monitor(mon: CellMonitor):
     o_assign, o_add, o_remove, o_query = C.assign_cells, C.add_cell, C.remove_cell, C.get_near_cells
     o_setattr = pstruct.Atom.__setattr__ if "__setattr__" in pstruct.Atom.__dict__ else None
     o_remove_atom = presidue.Residue.remove_atom
+    o_atom_init = pstruct.Atom.__init__
+
+    def _w_atom_init(self, *a, **k):
+        r = o_atom_init(self, *a, **k)
+        if mon.ops["assign"]:
+            mon.ev("N", self)
+        return r
 
     def _w_assign(self, biomolecule):
         mon.biomol[id(self)] = biomolecule
         mon.ops["assign"] += 1
         mon.log("assign", id(self), self.cellsize)
+        mon.ev("S", None)
         return o_assign(self, biomolecule)
 
     def _w_add(self, atom):
@@ -96,6 +115,9 @@ def monitor(mon: CellMonitor):
         if getattr(atom, "cell", None) is not None:
             mon.ops["double_add"] += 1
             mon.hist("double-add", call_site())
+            mon.ev("B", atom)
+        else:
+            mon.ev("A", atom)
         r = o_add(self, atom)
         mon.log("add", mon.aid(atom), atom.x, atom.y, atom.z)
         return r
@@ -105,6 +127,7 @@ def monitor(mon: CellMonitor):
         if getattr(atom, "cell", None) is not None:
             mon.last_unreg[id(atom)] = call_site()
         mon.log("remove", mon.aid(atom))
+        mon.ev("R", atom)
         return o_remove(self, atom)
 
     def _w_query(self, atom):
@@ -113,6 +136,7 @@ def monitor(mon: CellMonitor):
         mon.queries += 1
         bio = mon.biomol.get(id(self))
         mon.log("query", mon.aid(atom), tuple(mon.aid(b) for b in res))
+        mon.ev("Q", atom)
         if bio is None or getattr(atom, "cell", None) is None:
             return res
         size = self.cellsize
@@ -160,8 +184,11 @@ def monitor(mon: CellMonitor):
             mon.hist("write-registered", mon.last_write[id(self)])
             mon.log("write", mon.aid(self), name, value)
             mon.stale_moved[id(self)] = (self, mon.last_write[id(self)])
+            mon.ev("X", self, mon.last_write[id(self)])
         elif name in ("x", "y", "z") and id(self) in mon.atom_ids:
             mon.log("write", mon.aid(self), name, value)
+            if "cell" in self.__dict__:
+                mon.ev("W", self)
         if o_setattr:
             o_setattr(self, name, value)
         else:
@@ -175,11 +202,15 @@ def monitor(mon: CellMonitor):
             mon.hist("removed-registered", mon.removed[id(atom)])
             mon.aid(atom)
             mon.stale_removed[id(atom)] = (atom, mon.removed[id(atom)])
+            mon.ev("G", atom, mon.removed[id(atom)])
+        elif atom is not None and mon.ops["assign"]:
+            mon.ev("D", atom)
         return o_remove_atom(self, atomname)
 
     C.assign_cells, C.add_cell, C.remove_cell, C.get_near_cells = _w_assign, _w_add, _w_remove, _w_query
     pstruct.Atom.__setattr__ = _w_setattr
     presidue.Residue.remove_atom = _w_remove_atom
+    pstruct.Atom.__init__ = _w_atom_init
     try:
         yield mon
     finally:
@@ -189,6 +220,7 @@ def monitor(mon: CellMonitor):
         else:
             del pstruct.Atom.__setattr__
         presidue.Residue.remove_atom = o_remove_atom
+        pstruct.Atom.__init__ = o_atom_init
 
 
 def _name(atom):
